@@ -176,7 +176,9 @@ SEEDS = ['x=1\na |= 1\ny=2\n', '?x,y\nz=1\n', '', '--c', 'x=1', 't={1,2}',
          'z=("x"):rep(2)\n', 'z=((a).b)[c]\n', 'z=(...)\n',
          'z=(function() end)()\n', 'z = ( a ) ( b )\n',
          'if (x) a=1 else\nb=2\n', 'if (x) a=1 else', 'a=1;;b=2;\n;;c=3\n',
-         'if (x) a=1 else c=3\nb=2\n']
+         'if (x) a=1 else c=3\nb=2\n', 't={1 ,2 ;3 , x=4 ,}\n',
+         't={1 -- c\n ,2\n ;\n 3}\n', 'x=1\ry=2\rif (a) b=1\rc=3\r',
+         'x=1 -- c\ry=2\r', 'function a.b.c.d:e() end\n']
 HARNESSES = [
     Harness('kernel', kernel, quick=KQ,
             thorough=KQ + [dict(Q, n=3, at_start=False, at_eof=e, indent=1,
